@@ -477,9 +477,8 @@ func (runInfo *runInfoStruct) runForStmt(stmt *ast.ForStmt) {
 	if runInfo.err != nil {
 		return
 	}
-	if value.Kind() == reflect.Interface && !value.IsNil() {
-		value = value.Elem()
-	}
+	// the subject is evaluated once, to a value: a body that replaces the slot it was read from does not move the loop
+	value = containerOperand(value)
 
 	env := runInfo.env
 	runInfo.env = env.NewEnv()
